@@ -270,6 +270,13 @@ def _fam():
     S += [[["backup"], ["nn", "f32"], ["hilbert", "u64"], ["array", "f64", 2]],
           [["backup"], ["linear", "f32"], ["hilbert", "u64"], ["array", "f64", 2]],
           [["backup"], ["nn", "f32"], ["hilbert", "u64"], ["array", "f32", 2]]]
+    # Hilbert and Morton bare and under interpolators only (the stacks whose reloaded lookups are compared at every coordinate:
+    # whatever a layout layer derives from its sizes at construction must also be there after a load)
+    S += [[["hilbert", "u64"], ["array", "f64", 1]],
+          [["nn", "f32"], ["hilbert", "u64"], ["array", "f32", 2]],
+          [["linear", "f32"], ["hilbert", "u64"], ["array", "f64", 1]],
+          [["morton", "u64", 2, 1], ["array", "f32", 1]],
+          [["linear", "f32"], ["morton", "u64", 2, 0], ["array", "f64", 2]]]
     # bare arrays
     S += [[["array", "f32", 3]], [["array", "f64", 3]], [["array", "f64", 1]], [["array", "f32", 1]], [["array", "f32", 4]],
           [["array", "f64", 2]], [["array", "f32", 2]], [["cast", "f32"], ["array", "f64", 1]], [["deref"], ["array", "f64", 4]]]
